@@ -16,7 +16,7 @@ if TYPE_CHECKING:
     from poetry.core.constraints.generic.base_constraint import BaseConstraint
 
 
-BASIC_CONSTRAINT = re.compile(r"^(!?==?)?\s*([^\s]+?)\s*$")
+BASIC_CONSTRAINT = re.compile(r"^(!=|==?)?\s*([^\s]+?)\s*$")
 STR_CMP_CONSTRAINT = re.compile(
     r"""(?ix)^ # case insensitive and verbose mode
     (?P<quote>['"]) # Single or double quotes
